@@ -436,9 +436,19 @@ def r6_simple_shortcut(rep, ctx):
         # the value that `unit` receives from this statement
         nid = cfg.node_of(st)
         idx = [i for i, d in enumerate(res.defs.get("unit", [])) if res.def_stmt.get(("unit", i)) is st]
-        for i in idx:
-            t = res._name_def("unit", i)
-            for a_ in alternatives(t):
+        # (a value copied from a definition made under a test carries the facts of that definition site: the
+        # result variable of an extracted helper)
+        per_origin = []
+        if isinstance(st.value, ast.Name) and len(idx) == 1:
+            org = res.origins(st.value)
+            for (ost, ot), chain in zip(org, list(res.origin_chains)):
+                sites = [nid] + [cfg.node_of(x) for x in [ost] + chain if x is not None]
+                per_origin += [(a_, sites) for a_ in alternatives(ot)]
+        else:
+            for i in idx:
+                per_origin += [(a_, [nid]) for a_ in alternatives(res._name_def("unit", i))]
+        if True:
+            for a_, sites in per_origin:
                 # symbol component ([..][0]) of the first entry of a composing request
                 if not (a_[0] == "sub" and a_[2] == ("const", 0)):
                     continue
@@ -447,7 +457,7 @@ def r6_simple_shortcut(rep, ctx):
                     continue
                 n += 1
                 ok = False
-                for k, l_, r_, pos in nfacts(cfg, nid):
+                for k, l_, r_, pos in [f_ for s_ in sites for f_ in nfacts(cfg, s_)]:
                     if k == "eq" and pos and r_ is not None:
                         for x_, y_ in ((l_, r_), (r_, l_)):
                             if isinstance(y_, ast.Constant) and y_.value == 1:
